@@ -98,6 +98,13 @@ def directed_cases():
             if len(names) >= 2:
                 variants["unnamed-two-params"] = [{"t": "snapshot", "sid": 1, "name": None, "args": names[:2]},
                                                   {"t": "ensure", "cid": 1, "args": [], "err": {"form": "default"}}]
+                # several parameters stay several when some (or all) of them carry a default value
+                variants["unnamed-two-params-one-defaulted"] = [
+                    {"t": "snapshot", "sid": 1, "name": None, "args": names[:2], "dargs": names[1:2]},
+                    {"t": "ensure", "cid": 1, "args": [], "err": {"form": "default"}}]
+                variants["unnamed-two-params-both-defaulted"] = [
+                    {"t": "snapshot", "sid": 1, "name": None, "args": names[:2], "dargs": names[:2]},
+                    {"t": "ensure", "cid": 1, "args": [], "err": {"form": "default"}}]
             for vname, decos in variants.items():
                 f = _f(kind, is_async, decos, "f0" if kind == "function" else ("p" if kind in ("getter", "setter") else "m"))
                 if kind == "function":
